@@ -321,12 +321,13 @@ var _ cloudwatch.CloudwatchClient = (*CWSim)(nil)
 // BackendSpec selects a backend kind and the knobs the simulator varies. Everything else keeps the
 // backend's own default.
 type BackendSpec struct {
-	Kind        string                 // one of BackendKinds
-	BatchSize   int                    // metrics-per-batch where the backend has such a knob; 0 = backend default
-	Compress    bool                   // where supported (datadog, influxdb, otlp); NOTE: always set explicitly, so false means "off" although these backends default to on
-	Disabled    gostatsd.TimerSubtypes // disabled timer sub-metrics
-	MaxRequests int                    // 0 = backend default (which depends on runtime.NumCPU())
-	RetryWindow time.Duration          // max-request-elapsed-time; 0 = backend default (15s)
+	Kind         string                 // one of BackendKinds
+	BatchSize    int                    // metrics-per-batch where the backend has such a knob; 0 = backend default
+	Compress     bool                   // where supported (datadog, influxdb, otlp); NOTE: always set explicitly, so false means "off" although these backends default to on
+	Disabled     gostatsd.TimerSubtypes // disabled timer sub-metrics
+	MaxRequests  int                    // 0 = backend default (which depends on runtime.NumCPU())
+	RetryWindow  time.Duration          // max-request-elapsed-time; 0 = backend default (15s)
+	ResourceKeys []string               // otlp only: tag keys moved from data point attributes to resource attributes
 
 	// FlushInterval is the top level "flush-interval" (datadog / newrelic copy it into every point as
 	// "interval"). 0 = W6DefaultFlushInterval. (Addition to the work order's struct.)
@@ -525,6 +526,9 @@ func BuildBackend(spec BackendSpec, fab *Fabric, conns *ConnSim, cw *CWSim) (*Bu
 			v.Set("otlp.conversion", otlp.ConversionAsGauge)
 		} else {
 			v.Set("otlp.conversion", otlp.ConversionAsHistogram)
+		}
+		if len(spec.ResourceKeys) > 0 {
+			v.Set("otlp.resource_keys", spec.ResourceKeys)
 		}
 		setDisabled(v, "otlp.disabled_timer_aggregations", disabledKeysOTLP, spec.Disabled)
 		httpKnobs("otlp", "metrics_per_batch", "max_requests", "max_request_elapsed_time")
